@@ -17,6 +17,7 @@ type vCatTable struct {
 	hasRange    bool
 	indexes     map[string]bool
 	keys        []string // hash keys of the stored items (range fixed to "r" when the table has one)
+	unfit       int      // stored items whose g is a number: they belong to the table and to no index on g
 }
 
 type vCat map[string]*vCatTable
@@ -65,7 +66,7 @@ func vCheckTable(c *Client, cat vCat, name, id string) {
 	if err != nil {
 		return
 	}
-	nd.Assert(int(aws.ToInt64(d.Table.ItemCount)) == len(m.keys), id+"-describe-item-count")
+	nd.Assert(int(aws.ToInt64(d.Table.ItemCount)) == len(m.keys)+m.unfit, id+"-describe-item-count")
 	wantKS := 1
 	if m.hasRange {
 		wantKS = 2
@@ -86,7 +87,7 @@ func vCheckTable(c *Client, cat vCat, name, id string) {
 		nd.Assert(int(aws.ToInt64(g.ItemCount)) == len(m.keys), id+"-describe-index-item-count") // every item carries g
 	}
 	s, err := c.Scan(vCtx, &dynamodb.ScanInput{TableName: aws.String(name)})
-	nd.Assert(err == nil && len(s.Items) == len(m.keys), id+"-scan-size")
+	nd.Assert(err == nil && len(s.Items) == len(m.keys)+m.unfit, id+"-scan-size")
 	for _, idx := range []string{"gsi", "late"} {
 		si, err := c.Scan(vCtx, &dynamodb.ScanInput{TableName: aws.String(name), IndexName: aws.String(idx)})
 		if m.indexes[idx] {
@@ -132,6 +133,16 @@ func VerifC18Lifecycle() {
 		cats[0]["tb1"].indexes["late"] = true
 		vPutKey(clients[0], cats[0], "tb1", "a")
 	}
+	if nd.Param("rich", 1) == 1 && len(cats[0]) == 0 && nd.Choice("start-unfit", 2) == 1 {
+		// another reachable starting point: tb1 has no index yet and holds, first, an item whose g is a
+		// number (it can never belong to an index that declares g a string), then an ordinary item
+		nd.Reach("unfit-start")
+		nd.Assert(vCreate(clients[0], "tb1", false, false, 0) == nil, "C18-start-create")
+		cats[0]["tb1"] = &vCatTable{indexes: map[string]bool{}, unfit: 1}
+		_, err := clients[0].PutItem(vCtx, &dynamodb.PutItemInput{TableName: aws.String("tb1"), Item: vItem{"p": vS("uu"), "g": vN("1")}})
+		nd.Assert(err == nil, "C18-start-put-unfit")
+		vPutKey(clients[0], cats[0], "tb1", "a")
+	}
 	for step := 0; step < k; step++ {
 		ci := 0
 		if !narrow && nd.Choice("client", 4) == 3 { // the second client acts less often: it is the bystander
@@ -175,7 +186,7 @@ func VerifC18Lifecycle() {
 			if exists {
 				nd.Reach("clear")
 				nd.Assert(err == nil, "C18-clear-noerr")
-				m.keys = nil
+				m.keys, m.unfit = nil, 0
 			} else {
 				nd.Assert(vIsNotFound(err), "C18-clear-missing-is-not-found")
 			}
